@@ -379,6 +379,10 @@ func (c *C) Rcpt(ctx context.Context, to string, opts smtp.RcptOptions) error {
 		// TODO: DSN support
 	}
 
+	// Accepted recipients are reported using the address we were given, not
+	// the converted one.
+	givenTo := to
+
 	// If necessary, the extension flag is enabled in Start.
 	if ok, _ := c.cl.Extension("SMTPUTF8"); !address.IsASCII(to) && !ok {
 		var err error
@@ -400,7 +404,7 @@ func (c *C) Rcpt(ctx context.Context, to string, opts smtp.RcptOptions) error {
 		return c.wrapClientErr(err, c.serverName)
 	}
 
-	c.rcpts = append(c.rcpts, to)
+	c.rcpts = append(c.rcpts, givenTo)
 
 	return nil
 }
@@ -494,7 +498,17 @@ func (c *C) Data(ctx context.Context, hdr textproto.Header, body io.Reader) erro
 func (c *C) LMTPData(ctx context.Context, hdr textproto.Header, body io.Reader, statusCb func(string, *smtp.SMTPError)) error {
 	defer trace.StartRegion(ctx, "smtpconn/LMTPDATA").End()
 
-	wc, err := c.cl.LMTPData(statusCb)
+	// The server reports one status per accepted recipient, in order, using
+	// the (possibly converted) address sent to it. Report it using the
+	// address we were given.
+	rcptIndx := 0
+	wc, err := c.cl.LMTPData(func(rcpt string, status *smtp.SMTPError) {
+		if rcptIndx < len(c.rcpts) {
+			rcpt = c.rcpts[rcptIndx]
+		}
+		rcptIndx++
+		statusCb(rcpt, status)
+	})
 	if err != nil {
 		return c.wrapClientErr(err, c.serverName)
 	}
